@@ -48,3 +48,8 @@ package common
 //@   ensures value: result != nil && fresh(result) && val(result) == represent(bases, exps, modulus, maxMessageLength, 0, len(exps))
 //@   modifies nothing
 //@   loop 0 invariant 0 <= $i && $i <= len(exps) && r != nil && fresh(r) && tmp != nil && fresh(tmp) && r != tmp && val(r) == represent(bases, exps, modulus, maxMessageLength, 0, $i)
+
+//@ func Close
+//@   property C18
+//@   trusted closing an io.Closer (dynamic call) changes no state that Go code of this library can observe
+//@   modifies nothing
